@@ -17,9 +17,6 @@ namespace Props.C03
 
 open Gen.R.Helpers Gen.R.Hydro Gen.R.Template Lemmas.Template
 
-/-- sound speed squared used by `shockDE`: `csqHighT` in the shock wave, `csqLowT` in the rarefaction wave -/
-noncomputable abbrev csqOf (s : HydroP) (T : ℝ) (b : Bool) : ℝ := if b then s.csqHighT T else s.csqLowT T
-
 /-! ## T03.1  `shockDE` is the textbook self-similar flow with `v` as independent variable -/
 
 /-- T03.1a. Second component of `shockDE`: `dT/dv = T γ²(v) μ(ξ,v)` with `μ(ξ,v) = (ξ−v)/(1−ξv)`
